@@ -11,6 +11,7 @@ import StimModel.Model.DemSem
 import StimModel.Model.Search
 import StimModel.Model.Explain
 import StimModel.Model.Flow
+import StimModel.Model.Rewrite
 /-! Line-protocol dispatcher: one request line in, one answer line out. -/
 namespace Stim.Driver
 open Stim Stim.Wire
@@ -705,7 +706,7 @@ def searchCheck (toks : List String) : String :=
       | none, ["none"] => "ok"
       | none, _ => "should-reject-ungraphlike"
       | some els, ["none"] =>
-        if els.length > 16 then "ok-unchecked" else
+        if els.length > 16 then "ok existence-not-checked" else
         (match minLogical els with | none => "ok" | some k => s!"solution-exists size={k}")
       | some els, resToks =>
         match parseDem resToks with
@@ -715,7 +716,7 @@ def searchCheck (toks : List String) : String :=
           if got.any (fun e => !(els.contains e)) then "not-an-element-of-the-model"
           else if !isLogical total then "not-an-undetectable-logical-error"
           else if kind == "hyper" && flag == "1" then "ok"
-          else if els.length > 16 then "ok-unchecked"
+          else if els.length > 16 then "ok minimality-not-checked"
           else (match minLogical els with
             | some k => if got.length == k then "ok" else s!"not-minimal got={got.length} min={k}"
             | none => "no-solution-should-exist")
@@ -1034,6 +1035,7 @@ def flowCmd (toks : List String) : String :=
       let ctx := flowCtx c (nS.toNat?.getD 0)
       (match parseFlow ctx.m rest with
       | some (fl, inRange, [cs, cu]) =>
+        if ctx.run.err.isSome then s!"model-rejects-circuit {ctx.run.err.getD ""}" else
         if !inRange then (if cs == "E" && cu == "E" then "ok" else "should-reject-index-out-of-range")
         else if cs == "E" || cu == "E" then "should-not-reject"
         else
@@ -1051,6 +1053,7 @@ def flowCmd (toks : List String) : String :=
       let ctx := flowCtx c (nS.toNat?.getD 0)
       (match parseFlows ctx.m (kS.toNat?.getD 0) rest with
       | some (fls, []) =>
+        if ctx.run.err.isSome then s!"model-rejects-circuit {ctx.run.err.getD ""}" else
         match (fls.zipIdx).find? fun ((fl, ok), _) => !ok || decideFlow c ctx fl != .yes with
         | some (_, i) => s!"generator-is-not-a-flow {i}"
         | none =>
@@ -1082,6 +1085,134 @@ def flowCmd (toks : List String) : String :=
     | _ => "bad-request")
   | _ => "bad-request"
 
+/-! ### `rewrite ...` (C13) -/
+def rewriteCmd (toks : List String) : String :=
+  match toks with
+  | "flows" :: rest =>
+    (match parseCircuit rest with
+    | some (c1, rest) =>
+      match parseCircuit rest with
+      | some (c2, nS :: kS :: rest) =>
+        let m := countResults c1
+        (match parseFlows m (kS.toNat?.getD 0) rest with
+        | some (fls, []) => flowEquivalent c1 c2 (nS.toNat?.getD 0) (fls.map (·.1))
+        | _ => "bad-request")
+      | _ => "bad-request"
+    | none => "bad-request")
+  | "nonoise" :: rest =>
+    (match parseCircuit rest with
+    | some (c1, rest) =>
+      match parseCircuit rest with
+      | some (c2, []) =>
+        if !sameProgram (withoutNoiseList c1) c2 then "differs-from-noise-removed-input"
+        else if repTagsList c1 != repTagsList c2 then "repeat-tags-differ"
+        else "ok"
+      | _ => "bad-request"
+    | none => "bad-request")
+  | "notags" :: rest =>
+    (match parseCircuit rest with
+    | some (c1, rest) =>
+      match parseCircuit rest with
+      | some (c2, []) =>
+        if !(tagsOfList c2).all (· == "") then "a-tag-survived"
+        else if !sameProgram (withoutTagsList c1) c2 then "differs-from-tag-stripped-input"
+        else "ok"
+      | _ => "bad-request"
+    | none => "bad-request")
+  | "nofeedback" :: rest =>
+    (match parseCircuit rest with
+    | some (c2, []) => if hasFeedback c2 then "feedback-remains" else "ok"
+    | _ => "bad-request")
+  | "inverse" :: rest =>
+    (match parseCircuit rest with
+    | some (c1, rest) =>
+      match parseCircuit rest with
+      | some (c2, []) =>
+        let c : Circuit := c1 ++ c2
+        let N := c.numQubits
+        let ctx := flowCtx c N
+        if ctx.run.err.isSome then s!"model-rejects-circuit {ctx.run.err.getD ""}" else
+        let unit (k : Nat) (l : P1) : List P1 := (List.range N).map fun j => if j == k then l else .I
+        let bad := (List.range N).findSome? fun k =>
+          [P1.X, P1.Z].findSome? fun l =>
+            if decideFlow c ctx { inP := unit k l, outP := unit k l, sign := false, meas := [], obs := [] } != .yes
+            then some s!"not-the-inverse qubit={k}" else none
+        bad.getD "ok"
+      | _ => "bad-request"
+    | none => "bad-request")
+  | "invqec" :: rest =>
+    -- `<input circuit> <reversed circuit> <k> <flows of the input> <returned flows>`
+    (match parseCircuit rest with
+    | some (c1, rest) =>
+      match parseCircuit rest with
+      | some (c2, kS :: rest) =>
+        let k := kS.toNat?.getD 0
+        let m1 := countResults c1
+        let m2 := countResults c2
+        (match parseFlows m1 k rest with
+        | some (f1, rest) =>
+          (match parseFlows m2 k rest with
+          | some (f2, []) =>
+            let N := max c1.numQubits c2.numQubits
+            let N := (f1 ++ f2).foldl (fun acc (f, _) => max acc (max f.inP.length f.outP.length)) N
+            let x1 := flowCtx c1 N
+            let x2 := flowCtx c2 N
+            if x1.run.err.isSome then s!"model-rejects-input {x1.run.err.getD ""}" else
+            if x2.run.err.isSome then s!"reversed-circuit-is-not-executable {x2.run.err.getD ""}" else
+            let strip (p : List P1) : List P1 := (List.range N).map fun j => p.getD j .I
+            let bad := ((f1.zip f2).zipIdx).findSome? fun (((a, okA), (b, okB)), i) =>
+              if !okA then some s!"input-flow-index-out-of-range {i}"
+              else if !holdsUnsigned x1 a then none     -- the caller's flow is not a flow of the input: nothing is promised
+              else if !okB then some s!"returned-flow-index-out-of-range {i}"
+              else if strip b.inP != strip a.outP || strip b.outP != strip a.inP then some s!"returned-flow-ends-not-swapped {i}"
+              else if !holdsUnsigned x2 b then some s!"returned-flow-does-not-hold {i}"
+              else none
+            match bad with
+            | some r => r
+            | none =>
+              let d1 := (parities c1 []).1.length
+              let d2 := (parities c2 []).1.length
+              if d1 != d2 then s!"detector-count-differs {d1} {d2}"
+              else
+                let det1 := (deterministicMask c1).1
+                let det2 := (deterministicMask c2).1
+                if det1.all id && !det2.all id then "a-detector-became-nondeterministic" else "ok"
+          | _ => "bad-request")
+        | none => "bad-request")
+      | _ => "bad-request"
+    | none => "bad-request")
+  | _ => "bad-request"
+
+/-! ### `gencode check` (C19) -/
+/-- `gencode check <circuit> <detectors|?> <observables|?>`: the circuit is executable, has the stated numbers of detectors and
+    observables, every detector and observable is deterministic, and all of them are 0 on the noiseless reference sample -/
+def gencodeCheck (toks : List String) : String :=
+  match parseCircuit toks with
+  | some (c, [dS, oS]) =>
+    let run := runCircuit c (.bias false)
+    match run.err with
+    | some e => "not-executable " ++ e
+    | none =>
+      let (dets, obs, _) := parities c run.record
+      let nObs := maxPlus1 (obs.map (·.1))
+      if dS != "?" && dS.toNat? != some dets.length then s!"detector-count model={dets.length}"
+      else if oS != "?" && oS.toNat? != some nObs then s!"observable-count model={nObs}"
+      else
+        let (detOk, obsOk) := deterministicMask c
+        match (detOk.zipIdx).find? fun (b, _) => !b with
+        | some (_, i) => s!"nondeterministic-detector {i}"
+        | none =>
+        match obsOk.find? fun (_, b) => !b with
+        | some (k, _) => s!"nondeterministic-observable {k}"
+        | none =>
+        match (dets.zipIdx).find? fun (b, _) => b with
+        | some (_, i) => s!"detection-event-without-noise {i}"
+        | none =>
+        match obs.find? fun (_, b) => b with
+        | some (k, _) => s!"observable-flipped-without-noise {k}"
+        | none => "ok"
+  | _ => "bad-request"
+
 def answer (toks : List String) : String :=
   match toks with
   | "tsim" :: "check" :: rest => tsimCheck rest
@@ -1104,6 +1235,8 @@ def answer (toks : List String) : String :=
   | "circ" :: "qcoords" :: rest => circQCoords rest
   | "explain" :: "check" :: rest => explainCheck rest
   | "flow" :: rest => flowCmd rest
+  | "gencode" :: "check" :: rest => gencodeCheck rest
+  | "rewrite" :: rest => rewriteCmd rest
   | "dem" :: "check" :: rest => demCheck rest
   | "dem" :: "coords" :: rest => demCoords rest
   | "gate" :: "act" :: rest => gateAct rest
